@@ -52,6 +52,18 @@ func summariseInit(p *packages.Package, fd *ast.FuncDecl) (steps []sgprStep, lan
 							step.reserved += v
 						}
 					}
+					// the same step spelled out: SGPRPtr = SGPRPtr + k
+					if len(x.Lhs) == 1 && len(x.Rhs) == 1 && types.ExprString(x.Lhs[0]) == "SGPRPtr" && x.Tok == token.ASSIGN {
+						if be, ok := ast.Unparen(x.Rhs[0]).(*ast.BinaryExpr); ok && be.Op == token.ADD {
+							for _, pr := range [][2]ast.Expr{{be.X, be.Y}, {be.Y, be.X}} {
+								if types.ExprString(ast.Unparen(pr[0])) == "SGPRPtr" {
+									if v, ok := constInt64(p, pr[1]); ok {
+										step.reserved += v
+									}
+								}
+							}
+						}
+					}
 					if x.Tok == token.DEFINE && len(x.Lhs) == 1 && len(x.Rhs) == 1 {
 						locals[types.ExprString(x.Lhs[0])] = normExpr(types.ExprString(x.Rhs[0]))
 					}
@@ -836,6 +848,82 @@ func runC02(c *core.Ctx) core.Meta {
 			st8.Ob(installs)
 			if !installs {
 				c.ReportAt("R02.8", fn, fn.Pos(), "decoder-option-ignored", "the compute-unit builder never installs the decoder it was configured with: every timing compute unit decodes with a default (GCN3) disassembler")
+			}
+		}
+	}
+
+	// ---------------- R02.15 a flushed execution unit starts from its reset state ----------------
+	// The pipeline flush of the compute unit (page migration, TLB shootdown) drops the instructions in
+	// flight and re-issues them. A unit that decides "this instruction has not been executed yet" by a
+	// field still holding its zero value (a start latch: the field is set to a non-zero value only under
+	// the test field == 0, next to the call of the ALU) has to reset that field in its Flush.
+	st15 := c.Rule("R02.15", "an execution unit of the timing compute unit that latches the start of an instruction in a field (the field is stored a non-zero value only on the edge of a test field == 0; LDSUnit.cycleLeft: 0 means not executed yet) stores that field in its Flush method. A latch that survives the pipeline flush makes the unit count down for the first instruction it receives after the restart instead of executing it: a ds_write is lost, a ds_read leaves stale registers, while PCs and instruction counts still match emulation", 1)
+	{
+		pcu := NewPkgInfo(c, cuPkg)
+		for _, fn := range pcu.Funcs {
+			if fn.Signature.Recv() == nil {
+				continue
+			}
+			unit := namedTypeName(fn.Signature.Recv().Type())
+			flush := c.SSAFunc(cuPkg, strings.TrimPrefix(unit, "cu.")+".Flush")
+			if flush == nil || fn == flush {
+				continue
+			}
+			var g *core.Graph
+			for _, b := range fn.Blocks {
+				for _, in := range b.Instrs {
+					sto, ok := in.(*ssa.Store)
+					if !ok {
+						continue
+					}
+					f := core.FieldOfAddr(sto.Addr)
+					if f == nil {
+						continue
+					}
+					if k, isC := core.ConstInt(sto.Val); !isC || k == 0 {
+						continue
+					}
+					if g == nil {
+						g = core.BuildGraph(fn, 0, nil)
+					}
+					n := g.NodeOf(in)
+					if n == nil {
+						continue
+					}
+					latched := g.Guarded(n, CmpCut(func(_ *core.Node, op token.Token, x, y ssa.Value) int {
+						if core.LoadedField(x) != f {
+							return 0
+						}
+						if z, isC := core.ConstInt(y); !isC || z != 0 {
+							return 0
+						}
+						switch op {
+						case token.EQL:
+							return 1
+						case token.NEQ:
+							return -1
+						}
+						return 0
+					}))
+					if !latched {
+						continue
+					}
+					st15.Instances++
+					c.MarkAnalysed(fn)
+					reset := false
+					for _, fb := range flush.Blocks {
+						for _, fin := range fb.Instrs {
+							if fs, ok := fin.(*ssa.Store); ok && core.FieldOfAddr(fs.Addr) == f {
+								reset = true
+							}
+						}
+					}
+					st15.Ob(reset)
+					st15.Sample("%s latches the start of an instruction in %s; %s resets it: %v", core.FuncName(fn), f.Name(), core.FuncName(flush), reset)
+					if !reset {
+						c.ReportAt("R02.15", flush, flush.Pos(), "latch-survives-flush:"+core.FuncName(fn)+":"+f.Name(), core.FuncName(fn)+" starts an instruction (runs it on the shared ALU and arms "+f.Name()+") only while "+f.Name()+" is 0, and "+core.FuncName(flush)+" does not reset it: after a pipeline flush that arrives while an instruction is in that stage, the first instruction the unit receives is counted down but never executed - its effect is lost in timing mode while emulation executes it")
+					}
+				}
 			}
 		}
 	}
